@@ -18,6 +18,27 @@ func main() {
 	switch os.Args[1] {
 	case "vf":
 		vf(os.Args[2:])
+	case "params":
+		// govc params <dir> <modprefix>: "key(recv, a, b)" for every function of the module that has a contract
+		p, err := eng.Load(os.Args[2], os.Args[3], nil, "./...")
+		if err != nil {
+			fmt.Fprintln(os.Stderr, err)
+			os.Exit(2)
+		}
+		cs, err := eng.ParseContracts(loadContractFiles(os.Args[2], "/verif/specs"))
+		if err != nil {
+			fmt.Fprintln(os.Stderr, err)
+			os.Exit(2)
+		}
+		for key := range cs.Funcs {
+			if fn := p.Funcs[key]; fn != nil {
+				var ns []string
+				for _, prm := range fn.Params {
+					ns = append(ns, prm.Name())
+				}
+				fmt.Printf("%s(%s)\n", key, strings.Join(ns, ", "))
+			}
+		}
 	default:
 		os.Exit(runCheck(os.Args[1:]))
 	}
